@@ -530,7 +530,7 @@ func afterPostfixUpdate(prev, next *Tok) bool {
 	return next.Kind == Template || (next.Kind == Punct && (next.Text == "(" || next.Text == "["))
 }
 
-var commentPool = []string{"c", " note", " TODO: x", "", " a b c ", " let x = 1;", " }", " if (", " 'q' \"d\" `b`", " // nested", " /* not block */", "\t tab", " ünï"}
+var commentPool = []string{"c", " note", " TODO: x", "", " a b c ", " let x = 1;", " }", " if (", " 'q' \"d\" `b`", " // nested", " /* not block */", "\t tab", " ünï", "\t", " ends in a tab\t", " \t \t"}
 
 func (r *renderer) randGap(nlOK bool, must bool) string {
 	ch, opt := r.ch, r.opt
